@@ -145,6 +145,7 @@ def main(argv):
     reported = set()
     for x in fails:
         if x['class'] in reported: continue
+        if x['class'].startswith('c16-seed-regression:') and sum(1 for c in reported if c.startswith('c16-seed-regression:')) >= 3: continue
         reported.add(x['class'])
         v.violation('%s %s -g%s %s %s %s: %s' % (x['tool'], x['action'], x['game'], x['flags'], x['opts'], x['desc'], x['detail']),
                     {'class': x['class'], 'tool': x['tool'], 'game': x['game'], 'flags': x['flags'], 'action': x['action'], 'opts': x['opts'],
